@@ -30,20 +30,20 @@ type Violation struct {
 
 // Result is what one worker (one shard of one clause) reports.
 type Result struct {
-	Check       string             `json:"check"`
-	Part        string             `json:"part"`
-	Shard       int                `json:"shard"`
-	Evaluations int64              `json:"evaluations"`
-	Distinct    int64              `json:"distinct_nontrivial"`
-	Samples     []any              `json:"samples"`
-	Violations  []*Violation       `json:"violations"`
-	Exhaustive  bool               `json:"exhaustive"`
-	Counters    map[string]int64   `json:"counters"` // summed across shards
-	Maxima      map[string]int64   `json:"maxima"`   // max across shards
-	Sets        map[string][]string `json:"sets"`    // union across shards (e.g. distinct outcomes)
-	Notes       []string           `json:"notes"`
-	CasesDone   int64              `json:"cases_done"` // journal counter at last flush
-	WallS       float64            `json:"wall_s"`
+	Check       string              `json:"check"`
+	Part        string              `json:"part"`
+	Shard       int                 `json:"shard"`
+	Evaluations int64               `json:"evaluations"`
+	Distinct    int64               `json:"distinct_nontrivial"`
+	Samples     []any               `json:"samples"`
+	Violations  []*Violation        `json:"violations"`
+	Exhaustive  bool                `json:"exhaustive"`
+	Counters    map[string]int64    `json:"counters"` // summed across shards
+	Maxima      map[string]int64    `json:"maxima"`   // max across shards
+	Sets        map[string][]string `json:"sets"`     // union across shards (e.g. distinct outcomes)
+	Notes       []string            `json:"notes"`
+	CasesDone   int64               `json:"cases_done"` // journal counter at last flush
+	WallS       float64             `json:"wall_s"`
 }
 
 // Ctx is handed to a check body.
@@ -131,6 +131,23 @@ func (c *Ctx) Begin(desc func() any) bool {
 	return true
 }
 
+// Journal records the case about to be executed without counting it (used where a case is
+// re-executed only to learn whether to extend it).  Returns false if the case crashed before.
+func (c *Ctx) Journal(desc func() any) bool {
+	c.mu.Lock()
+	defer c.mu.Unlock()
+	cb, _ := json.Marshal(desc())
+	if c.SkipSet[string(cb)] {
+		return false
+	}
+	if c.journal != nil {
+		b, _ := json.Marshal(map[string]any{"n": c.caseNo + 1, "case": json.RawMessage(cb)})
+		b = append(b, '\n')
+		_, _ = c.journal.WriteAt(append(b, make([]byte, 64)...), 0)
+	}
+	return true
+}
+
 // Nontrivial counts one distinct non-trivial case (the caller guarantees distinctness by
 // construction of its enumeration, or de-duplicates itself).
 func (c *Ctx) Nontrivial(n int64) {
@@ -205,6 +222,12 @@ func (c *Ctx) Violate(key, detail string, cas any) {
 	defer c.mu.Unlock()
 	if v := c.vioByKey[key]; v != nil {
 		v.Count++
+		if b, err := json.Marshal(cas); err == nil && len(b) < len(v.Case) {
+			v.Case, v.Detail = b, detail
+			if len(v.Detail) > 1500 {
+				v.Detail = v.Detail[:1500] + "…"
+			}
+		}
 		return
 	}
 	if len(c.vioByKey) >= 200 {
